@@ -103,6 +103,10 @@ def cases(draw):
             script.append([d.choice(['ca', 'c*', 'continue all']), 'continue_all', 0])
     img['breakpoints'] = sorted(bps)
     img['labels'] = labels
+    # which entry point builds the handler: fjm_run.run with a BreakpointHandler, or the quickstart flipjump.debug()
+    # (breakpoints given as addresses / exact label names / label substrings, label table from a debug file)
+    img['route'] = 'quickstart' if d.pct() < 45 else 'direct'
+    img['bp_as_label'] = d.pct() < 50
     img['script'] = script
     return img
 
@@ -236,6 +240,19 @@ def run_case(case):
             a2l[addr] = name
     handler = BreakpointHandler({a: None for a in bps}, dict(a2l), dict(labels))
     dev = engines.make_rec_device(case['input_bits'])
+    route = case.get('route', 'direct')
+    if route == 'quickstart':
+        import flipjump
+        from flipjump.utils.functions import save_debugging_labels
+        dbg = engines.tmpdir() / 'c15.fjd'
+        save_debugging_labels(dbg, dict(labels))
+        by_addr, by_name = set(bps), set()
+        if case.get('bp_as_label'):
+            # a breakpoint whose address carries a label is requested by that label's exact name instead
+            for name, addr in sorted(labels.items()):
+                if addr in by_addr:
+                    by_addr.discard(addr)
+                    by_name.add(name)
     buf = io.StringIO()
     old_input = builtins.input
     builtins.input = fake_input
@@ -243,7 +260,11 @@ def run_case(case):
     ts = None
     try:
         with contextlib.redirect_stdout(buf), engines.hang_guard(60):
-            ts = fjm_run.run(path, io_device=dev, breakpoint_handler=handler)
+            if route == 'quickstart':
+                ts = flipjump.debug(path, dbg, breakpoints_addresses=by_addr or None, breakpoints=by_name or None,
+                                    io_device=dev, print_time=False, print_termination=False)
+            else:
+                ts = fjm_run.run(path, io_device=dev, breakpoint_handler=handler)
     except BaseException as e:  # noqa
         if isinstance(e, (SystemExit, MemoryError)):
             raise
@@ -251,7 +272,7 @@ def run_case(case):
     finally:
         builtins.input = old_input
     out = buf.getvalue()
-    cl = ['w=%d' % w]
+    cl = ['w=%d' % w, 'route=' + route]
     if exc is not None:
         return Violation('c15:exception:' + type(exc).__name__, {'exc': repr(exc)[:300], 'stdout_tail': out[-400:]}, cl)
     # ---- parse the transcript
